@@ -143,7 +143,7 @@ class RefsWorld:
                 after_reject = 2
             else:
                 k = weighted(rng, [('src', 8), ('link', 5), ('plain', 2.5), ('update1', 1), ('uctx_open', 1), ('uctx_close', 1.2), ('ctor', 0.6),
-                                   ('drain', 1.5), ('step', 2)])
+                                   ('drain', 1.5), ('step', 2), ('reent_over', 0.8)])
             t = rng.randrange(3)
             pn = rng.choice(TPARAMS[:4])
             if k == 'src':
@@ -164,7 +164,14 @@ class RefsWorld:
                 ops.append({'op': 'uctx_close', 't': t})
             elif k == 'ctor':
                 kw = {p: {'ref': self.gen_ref(rng, p, ns)} for p in TPARAMS if rng.random() < 0.4}
-                ops.append({'op': 'ctor', 'kw': kw})
+                op = {'op': 'ctor', 'kw': kw}
+                if rng.random() < 0.4:
+                    ipn = rng.choice(['a', 'b'])
+                    if rng.random() < 0.5:
+                        op['init'] = {'p': ipn, 'v': rng.randint(0, 10)}
+                    else:
+                        op['init'] = {'p': ipn, 'ref': {'k': rng.choice(['param', 'bind']), 's': rng.randrange(ns), 'p': rng.choice(['x', 'y']), 'f': 'inc'}}
+                ops.append(op)
             elif k == 'drain':
                 ops.append({'op': 'drain'})
             elif k == 'step':
@@ -185,11 +192,14 @@ class RefsWorld:
                     ref = {'k': 'param', 's': ref['s'], 'p': 'x'}
                 ops.append({'op': 'src', 's': ref['s'], 'p': ref.get('p', 'x'), 'v': rng.randint(11, 15), 'quiet': True})
                 ops.append({'op': 'link', 't': t, 'p': pn, 'ref': ref})
+            elif k == 'reent_over':
+                ops.append({'op': 'reent', 't': t, 'p': rng.choice(['a', 'b']), 'i': rng.randrange(2), 'v': rng.randint(0, 5), 'how': 'override',
+                            'bs': 0, 'bp': 'x'})
             elif k == 'batch_reject':
                 ops.append({'op': 'batch_reject', 't': t, 'p': rng.choice(['a', 'b']), 'how': rng.choice(['update', 'update', 'plain'])})
             elif k == 'reent':
                 ops.append({'op': 'reent', 't': t, 'p': rng.choice(['a', 'b', 't', 'a']), 'i': rng.randrange(2), 'v': rng.randint(0, 5),
-                            'how': rng.choice(['ref', 'ref', 'plain']), 'bs': rng.randrange(ns), 'bp': rng.choice(['x', 'y'])})
+                            'how': rng.choice(['ref', 'ref', 'plain', 'override']), 'bs': rng.randrange(ns), 'bp': rng.choice(['x', 'y'])})
             elif k == 'const':
                 ops.append({'op': 'const', 't': t, 'how': rng.choice(['plain', 'ref', 'update'])})
             elif k == 'ro':
@@ -293,7 +303,15 @@ class _Run:
             def m(self):
                 return self.x + 1
         self.Src = Src
+        self.init_action = None
+
+        def _oninit(self_obj):
+            # an on_init method that assigns a parameter of the object under construction (a plain value or a reference)
+            act, run.init_action = run.init_action, None
+            if act is not None:
+                setattr(self_obj, act[0], act[1])
         self.Tgt = type('Tgt', (param.Parameterized,), {
+            '_oninit': param.depends(watch=True, on_init=True)(_oninit),
             'a': param.Number(default=1, bounds=(0, 10), allow_refs=True),
             'b': param.Number(default=2, bounds=(0, 10), allow_refs=True),
             'c': param.Parameter(default=None, allow_refs=True, nested_refs=True),
@@ -359,10 +377,11 @@ class _Run:
             return items if ref.get('as', 'list') == 'list' else {f"k{i}": v for i, v in enumerate(items)}
         raise ValueError(k)
 
-    def construct(self, kw, initial=False):
+    def construct(self, kw, initial=False, init=None):
         """Returns True if the model says the constructor call is acceptable."""
         real_kw, links, vals = {}, {}, {'a': 1, 'b': 2, 'c': None, 't': 'v0', 'k': 3}
         ok = True
+        self.init_action = None
         for pn, d in kw.items():
             if 'ref' in d:
                 v = eval_ref(d['ref'], self.msrc)
@@ -379,6 +398,21 @@ class _Run:
         if ok and not initial and len(self.tgt) >= 3:
             return      # keep the world small
         snap = self.snapshot() if not ok else None
+        if ok and init is not None:
+            # performed by the object's on_init method: it overrides or replaces what the constructor arguments linked
+            ipn = init['p']
+            if 'ref' in init:
+                iv = eval_ref(init['ref'], self.msrc)
+                if valid_for(ipn, iv):
+                    self.init_action = (ipn, self.make_ref(init['ref']))
+                    links[ipn] = init['ref']
+                    vals[ipn] = iv
+            elif valid_for(ipn, init['v']):
+                self.init_action = (ipn, init['v'])
+                links.pop(ipn, None)
+                vals[ipn] = init['v']
+            if self.init_action is not None:
+                self.out.stats['probe.assignment_from_on_init_method'] += 1
         try:
             obj = self.Tgt(**real_kw)
         except Exception as e:      # noqa
@@ -674,7 +708,7 @@ class _Run:
             K = self.SubTgt if op.get('sub') else self.Tgt
             self.attempt(lambda: setattr(K, op['p'], op['v']), False, f"class-level {K.__name__}.{op['p']} = {op['v']!r}")
         elif k == 'ctor':
-            self.construct(op['kw'])
+            self.construct(op['kw'], init=op.get('init'))
 
     @staticmethod
     def update_call(t, pn, v, form):
@@ -712,6 +746,31 @@ class _Run:
         if pick is None:
             return
         v, trial = pick
+        if op['how'] == 'override':
+            # a watcher of the parameter assigns a plain value to ANOTHER parameter that is synchronised by the same source
+            # update: an ordinary assignment, it ends that link for good
+            cands = sorted(q for q, r in self.links[ti].items() if q != pn and q in ('a', 'b') and r['k'] not in ('abind', 'nested') and
+                           (s, sp) in ref_sources(r))
+            if not cands:
+                return
+            pn2, plainv = cands[0], 7
+            fired = []
+
+            def cb2(event):
+                if not fired:
+                    fired.append(1)
+                    self.attempt(lambda: setattr(t, pn2, plainv), True, f"plain T{ti}.{pn2} = {plainv} from a watcher of T{ti}.{pn} during the sync", ti, pn2)
+            w = t.param.watch(cb2, [pn])
+            try:
+                self.do({'op': 'src', 's': s, 'p': sp, 'v': v})
+            finally:
+                t.param.unwatch(w)
+            if fired:
+                self.links[ti].pop(pn2, None)
+                self.mval[ti][pn2] = plainv
+                self.relinked = True
+                self.out.stats['probe.override_from_watcher_during_sync'] += 1
+            return
         bad, badv = None, None
         if op['how'] == 'ref':
             if pn == 't':
